@@ -30,12 +30,17 @@ MANIFEST = {
     'category': 'proof',
     'text': 'Proved for all inputs: the generic moving-average selector ma() calls, for each matype 0..39, exactly the average named for '
             'that number once, with the (sliced) series, the period, the source type and sequential=True, and returns its result (or its '
-            'last entry); matypes 7, 8, 19 raise. Bounded stand-ins (14 candles, symbolic values, periods 2/3/5, RSI 2/3/4), reported under '
+            'last entry); matypes 7, 8, 19 raise. Also proved for EVERY series length (inductive loop invariants on the real numba kernels, z3): '
+            'the EMA kernel (NaN warm-up, seed = mean of the first window, recurrence step at every position, symbolic period), Wilder\'s '
+            'smoothing kernel and the EMA kernel of MACD (first value = first price, recurrence at every position, symbolic period), the '
+            'ATR kernel (true range at every position, NaN warm-up, Wilder recurrence over the true range; periods 2, 5, 14 - symbolic period '
+            'in the thorough tier), and momentum through the real wrapper (NaN warm-up, x[j] - x[j-p] at every position, symbolic period). '
+            'Bounded stand-ins (14 candles, symbolic values, periods 2/3/5, RSI 2/3/4), reported under '
             'bounded_checks: SMA/WMA/ROC/MOM/OBV/typical/median price equal their window definitions exactly, EMA/DEMA/TEMA/Wilders '
             'satisfy their recurrence step, RSI in [0,100], Williams %R in [-100,0], ATR >= 0 and its Wilder recurrence over the true '
             'range, Bollinger upper >= middle >= lower with middle == SMA, Donchian bounds enclose high/low, SMA/EMA/WMA scale linearly.',
-    'note': 'only the selector clause is an unbounded proof; the definition clauses are bounded in the series length and cover the '
-            'indicators listed in the evidence; the remaining families named in the statement are not under contract.',
+    'note': 'unbounded: the selector clause and the kernels named above; the other definition clauses are bounded in the series length and '
+            'cover the indicators listed in the evidence; the remaining families named in the statement are not under contract.',
 }
 N = 14
 PERIODS = (2, 3, 5)
@@ -301,6 +306,155 @@ def t_native_definitions(h):
     h.prove(not res.get('confirmed'), 'definitions-hold-on-ties-mixed-smoothing-and-huge-prices.native-bounded', {'detail': res.get('detail')})
 
 
+EMA_KERNEL = 'jesse.indicators.ema._ema'
+EMA_INV = {(EMA_KERNEL, 0): [
+    "forall(lambda j: isnan(result[j]), 0, period - 1)",
+    "result[period - 1] == initial",
+    "forall(lambda j: result[j] == alpha * source[j] + (1 - alpha) * result[j - 1], period, i)",
+    "prev == result[i - 1]",
+    "len(result) == n",
+]}
+
+
+def t_ema_unbounded(h):
+    """UNBOUNDED in the series length and in the period: the real numba kernel of the exponential moving average with an inductive
+    loop invariant - warm-up NaN, seed = mean of the first `period` prices, and the recurrence step
+    e[j] = a x[j] + (1 - a) e[j-1] with a = 2 / (period + 1) at EVERY later position"""
+    src = h.ctx.fresh_arr('x', np=True)
+    n = src.n
+    period = h.int('period', 1)
+    h.assume(ops.compare('>=', n, period))
+    h.cover('ema.unbounded.pre')
+    out = h.outcome(EMA_KERNEL, src, period)
+    h.prove(out.ok, 'ema.kernel.no-exception', {'raised': out.exc})
+    if not out.ok:
+        return
+    r = out.value
+    env = dict(r=r, x=src, p=period, n=n)
+    h.prove(h.ev('len(r) == n', **env), 'ema.kernel.one-entry-per-value.for-every-length-and-period')
+    h.prove(h.ev('forall(lambda j: isnan(r[j]), 0, p - 1)', **env), 'ema.kernel.warm-up-is-nan.for-every-length-and-period')
+    h.prove(h.ev('forall(lambda j: r[j] == (2 / (p + 1)) * x[j] + (1 - 2 / (p + 1)) * r[j - 1], p, n)', **env),
+            'ema.kernel.recurrence-step-at-every-position.for-every-length-and-period')
+
+
+WILDERS_KERNEL = 'jesse.indicators.wilders._wilders_fast'
+WILDERS_INV = {(WILDERS_KERNEL, 0): [
+    "res[0] == source[0]",
+    "forall(lambda j: res[j] == (res[j - 1] * (period - 1) + source[j]) / period, 1, i)",
+    "len(res) == len(source)",
+]}
+ATR_KERNEL = 'jesse.indicators.atr._atr'
+TR = "max(max(high[j] - low[j], abs(high[j] - close[j - 1])), abs(low[j] - close[j - 1]))"
+ATR_INV = {
+    (ATR_KERNEL, 0): [
+        "tr[0] == high[0] - low[0]",
+        f"forall(lambda j: tr[j] == {TR}, 1, i)",
+        "len(tr) == n",
+        "forall(lambda j: isnan(atr_values[j]), 0, n)",
+        "len(atr_values) == n",
+    ],
+    (ATR_KERNEL, 1): [
+        "tr[0] == high[0] - low[0]",
+        f"forall(lambda j: tr[j] == {TR}, 1, n)",
+        "forall(lambda j: isnan(atr_values[j]), 0, period - 1)",
+        "not isnan(atr_values[period - 1])",
+        "forall(lambda j: atr_values[j] == (atr_values[j - 1] * (period - 1) + tr[j]) / period, period, i)",
+        "len(atr_values) == n",
+    ],
+}
+
+
+MACD_EMA = 'jesse.indicators.macd.ema_numba'
+MACD_EMA_INV = {(MACD_EMA, 0): [
+    "ema_array[0] == source[0]",
+    "forall(lambda j: ema_array[j] == alpha * source[j] + (1 - alpha) * ema_array[j - 1], 1, i)",
+    "len(ema_array) == len(source)",
+]}
+
+
+def t_macd_ema_unbounded(h):
+    """UNBOUNDED: the EMA kernel of MACD - first value is the first price, then e[j] = a x[j] + (1 - a) e[j-1], a = 2 / (period + 1)"""
+    src = h.ctx.fresh_arr('x', np=True)
+    n = src.n
+    period = h.int('period', 1)
+    h.assume(ops.compare('>=', n, 1))
+    h.cover('macd-ema.unbounded.pre')
+    out = h.outcome(MACD_EMA, src, period)
+    h.prove(out.ok, 'macd.ema-kernel.no-exception', {'raised': out.exc})
+    if not out.ok:
+        return
+    env = dict(r=out.value, x=src, p=period, n=n)
+    h.prove(h.ev('len(r) == n and r[0] == x[0]', **env), 'macd.ema-kernel.starts-at-the-first-price.for-every-length-and-period')
+    h.prove(h.ev('forall(lambda j: r[j] == (2.0 / (p + 1)) * x[j] + (1 - 2.0 / (p + 1)) * r[j - 1], 1, n)', **env),
+            'macd.ema-kernel.recurrence-step-at-every-position.for-every-length-and-period')
+
+
+def t_wilders_unbounded(h):
+    """UNBOUNDED: Wilder's smoothing kernel - first value is the first price, then w[j] = (w[j-1] (p - 1) + x[j]) / p everywhere"""
+    src = h.ctx.fresh_arr('x', np=True)
+    n = src.n
+    period = h.int('period', 1)
+    h.assume(ops.compare('>=', n, 1))
+    h.cover('wilders.unbounded.pre')
+    out = h.outcome(WILDERS_KERNEL, src, period)
+    h.prove(out.ok, 'wilders.kernel.no-exception', {'raised': out.exc})
+    if not out.ok:
+        return
+    env = dict(r=out.value, x=src, p=period, n=n)
+    h.prove(h.ev('len(r) == n and r[0] == x[0]', **env), 'wilders.kernel.starts-at-the-first-price.for-every-length-and-period')
+    h.prove(h.ev('forall(lambda j: r[j] == (r[j - 1] * (p - 1) + x[j]) / p, 1, n)', **env),
+            'wilders.kernel.recurrence-step-at-every-position.for-every-length-and-period')
+
+
+def t_atr_unbounded(P):
+  def t(h):
+    """UNBOUNDED in the series length (period fixed per task: the products with a symbolic period are nonlinear and time out): the ATR
+    kernel - true range at every position, NaN warm-up, Wilder recurrence over the true range from `period` on"""
+    hi, lo, cl = (h.ctx.fresh_arr(nm, np=True) for nm in ('high', 'low', 'close'))
+    n = cl.n
+    h.assume(ops.land(ops.equal(hi.n, n), ops.equal(lo.n, n)))
+    period = P if P is not None else h.int('period', 1)
+    h.assume(ops.compare('>=', n, period))
+    h.cover('atr.unbounded.pre')
+    out = h.outcome(ATR_KERNEL, hi, lo, cl, period)
+    h.prove(out.ok, 'atr.kernel.no-exception', {'raised': out.exc})
+    if not out.ok:
+        return
+    env = dict(r=out.value, high=hi, low=lo, close=cl, p=period, n=n)
+    h.prove(h.ev('len(r) == n and forall(lambda j: isnan(r[j]), 0, p - 1)', **env), 'atr.kernel.warm-up-is-nan.for-every-length')
+    h.prove(h.ev(f'forall(lambda j: r[j] == (r[j - 1] * (p - 1) + {TR}) / p, p, n)', **env),
+            'atr.kernel.wilder-recurrence-over-the-true-range-at-every-position.for-every-length')
+  return t
+
+
+def t_window_unbounded(name):
+    """UNBOUNDED in length and period: momentum / rate of change through the real wrapper on a candle array of symbolic length: NaN
+    during the first `period` positions, then close[j] - close[j-p] resp. (close[j] / close[j-p] - 1) * 100 at EVERY position"""
+    def t(h):
+        c = h.ctx.fresh_arr('candles', np=True, cols=6)
+        n = c.n
+        period = h.int('period', 1)
+        h.assume(ops.compare('>=', n, 1))
+        q = ops.fresh_qvar('k')
+        h.ctx.s.add(z3.ForAll([q], z3.Implies(z3.And(q >= 0, q < n.t), c.fn(Sym(q, 'int')).e[2].t > 0)))       # prices are positive
+        h.cover(f'{name}.unbounded.pre')
+        out = h.outcome(f'jesse.indicators.{name}.{name}', c, period, sequential=True)
+        h.prove(out.ok, f'{name}.series.no-exception', {'raised': out.exc})
+        if not out.ok:
+            return
+        env = dict(r=out.value, c=c, p=period, n=n)
+        h.prove(h.ev('len(r) == n', **env), f'{name}.series.one-entry-per-candle.for-every-length-and-period')
+        short = h.branch(ops.compare('<', n, period))
+        upto = n if short else period
+        h.prove(h.ev('forall(lambda j: isnan(r[j]), 0, upto)', upto=upto, **env), f'{name}.series.warm-up-is-nan.for-every-length-and-period')
+        if not short:
+            # roc: r == (x / y - 1) * 100 with y > 0, stated without the division (a quotient may raise inside a clause)
+            text = 'r[j] == c[j][2] - c[j - p][2]' if name == 'mom' else '(not isnan(r[j])) and r[j] * c[j - p][2] == (c[j][2] - c[j - p][2]) * 100'
+            h.prove(h.ev(f'forall(lambda j: {text}, p, n)', **env),
+                    f'{name}.series.equals-its-definition-at-every-position.for-every-length-and-period')
+    return t
+
+
 def tasks(tier):
     x = dict(spec_mod=SPEC)
     ov = stubs.backtest_mode()
@@ -323,6 +477,13 @@ def tasks(tier):
                            prove_timeout_ms=180000))
     if tier == 'thorough':
         ts.append(Task('candle.rsi.p4', t_candle_based('rsi', 4), extra=dict(bx, fork_solver=True), overrides=dict(ov), prove_timeout_ms=180000))
+    ts.append(Task('ema.unbounded', t_ema_unbounded, extra=dict(spec_mod=SPEC), overrides=dict(ov), invariants=dict(EMA_INV), prove_timeout_ms=60000))
+    ts.append(Task('wilders.unbounded', t_wilders_unbounded, extra=dict(spec_mod=SPEC), overrides=dict(ov), invariants=dict(WILDERS_INV), prove_timeout_ms=60000))
+    for P in ((2, 5, 14) if tier == 'quick' else (2, 5, 14, None)):
+        ts.append(Task(f'atr.unbounded.p{P}', t_atr_unbounded(P), extra=dict(spec_mod=SPEC), overrides=dict(ov), invariants=dict(ATR_INV), prove_timeout_ms=60000))
+    ts.append(Task('macd-ema.unbounded', t_macd_ema_unbounded, extra=dict(spec_mod=SPEC), overrides=dict(ov), invariants=dict(MACD_EMA_INV), prove_timeout_ms=60000))
+    for nm in ('mom',):
+        ts.append(Task(f'{nm}.unbounded', t_window_unbounded(nm), extra=dict(spec_mod=SPEC), overrides=dict(ov), prove_timeout_ms=60000))
     ts.append(Task('native.definitions', t_native_definitions, extra=dict(spec_mod=SPEC, bounded='native: ADX (ties), stoch (mixed matypes), stddev (price level 1e9), random / spiky series')))
     for n in ('obv', 'typprice', 'medprice'):
         ts.append(Task(f'candle.{n}', t_candle_based(n, 0), extra=dict(bx), overrides=dict(ov)))
